@@ -534,6 +534,30 @@ def run_check(prop, tier, seed, replay=None):
             total["oracle_cases"] += extra["oracle_cases"]
             total["evaluations"] += extra["evaluations"]
 
+    # directed search: the cases on which model and implementation differ are handed to the property module, which
+    # may turn them into inputs of another (slower, closer to the user) stream's oracle
+    if corr_broken and hasattr(mod, "directed"):
+        try:
+            todo = mod.directed(total["disagreements"])
+        except Exception:
+            todo = []
+            total["harness_errors"].append({"error": "directed() raised", "tb": traceback.format_exc()[-1500:]})
+        for sname in sorted({n for n, _ in todo}):
+            st = [s for s in streams if s.name == sname][0]
+            cases = [c for n, c in todo if n == sname]
+            extra = new_summary()
+            st.setup()
+            try:
+                _run_cases(st, cases, None, extra, oracle_only=True)
+            finally:
+                st.teardown()
+            for f in extra["oracle_failures"]:
+                if sum(1 for g in total["oracle_failures"] if g["signature"] == f["signature"]) < 3:
+                    total["oracle_failures"].append(f)
+            total["oracle_fail_count"].update(extra["oracle_fail_count"])
+            total["oracle_cases"] += extra["oracle_cases"]
+            total["evaluations"] += extra["evaluations"]
+
     # 5. verdict
     findings = load_findings(prop)
     open_sigs = {}
@@ -572,7 +596,7 @@ def run_check(prop, tier, seed, replay=None):
             def still(c, st=st, sig=sig):
                 r = st.impl(c)
                 return any(s2 == sig for s2, _ in st.oracle(c, r))
-            small = shrink_case(st, f["case"], still)
+            small = shrink_case(st, f["case"], still, budget=getattr(st, "shrink_budget", 300))
             r = st.impl(small)
             path = write_replay(prop, {"property": prop, "kind": "failing-input", "seed": seed, "tier": tier,
                                        "stream": f["stream"], "signature": sig, "input": small,
